@@ -499,6 +499,16 @@ def run_frame(u: Unit):
 #   fitness simulates update_processor(...)'s copy of processor k, never the list element itself        -> C11.fitness_sum
 #   build_processors makes one deep copy per input-argument value and sets on the copy                   -> C11.build_processors_unit
 from . import C05 as _C05, C11 as _C11  # noqa: E402
+
+
+def _readout_replace(u):
+    from . import C02
+    return C02.readout_replace(u)
+
+
+_readout_replace.__doc__ = """The per-run readout of a sweep over the readout times (Readout.replace, shared with C02): the run's readout differs from the user's
+ONLY in what the run's parameters change -- start time and mode are the user's own."""
+unit("C06", "readout.replace")(_readout_replace)
 unit("C06", "runs_independent")(_C05.run_one_per_entry)
 unit("C06", "calib.fitness")(_C11.fitness_sum)
 unit("C06", "calib.build_processors")(_C11.build_processors_unit)
